@@ -504,8 +504,11 @@ def render_def(prog, i, skip_names=()):
         L.append("        r += 1")
     for rd in nd["reads"]:
         L.append("    r += %s" % read_expr(prog["vars"][rd["v"]], rd["form"]))
-    for c in nd["calls"]:
-        L.append("    r += %s" % call_expr(prog, nd, c, "x + 1"))
+    for ci, c in enumerate(nd["calls"]):
+        if c["form"] == "alias":  # (weighted: which alias names which function matters, not only the set of functions called)
+            L.append("    r += %d * %s" % (ci + 2, call_expr(prog, nd, c, "x + 1")))
+        else:
+            L.append("    r += %s" % call_expr(prog, nd, c, "x + 1"))
     if nd.get("cbdefault") is not None:
         L.append("    r += cb_(x + 1)")
     ne = nd["nested"]
@@ -733,6 +736,29 @@ def bump_explicit_above(prog, node=None, var=None):
     return bumped
 
 
+def make_alias_swap(rng, prog):
+    """(initial edition, next edition, description) or None: one function calls two different functions of its module
+    through two aliases (with different weights); the edit lets the two aliases exchange their targets."""
+    nodes = prog["nodes"]
+    for u, nd in enumerate(nodes):
+        ts = [t for t in range(u + 1, len(nodes)) if nodes[t]["mod"] == nd["mod"] and nodes[t]["kind"] in ("memento", "plain")]
+        if nd["kind"] != "memento" or nd["version"] is not None or nd["mod"] not in ("a", "b") or len(ts) < 2:
+            continue
+        p0 = copy.deepcopy(prog)
+        n0 = p0["nodes"][u]
+        n0["calls"] = [c for c in n0["calls"] if c["form"] != "alias"]
+        for t in ts[:2]:
+            c = {"t": t, "form": "alias"}
+            ensure_alias(p0["aliases"], p0["nodes"], c, n0)
+            n0["calls"].append(c)
+        res = apply_edit(rng, p0, "swap_aliases")
+        if res is None:
+            continue
+        p1, desc = res
+        return p0, p1, desc
+    return None
+
+
 def make_equal_vars(prog):
     """(initial edition, next edition, description) or None: three number variables of module a hold the values
     1, 2, 1 and one memento function of module a reads all of them; the edit sets the third to 2 - the multiset of
@@ -845,7 +871,7 @@ def apply_special(rng, prog, kind):
 
 EDIT_KINDS = ["const", "xconst", "tconst", "tperm", "builtin", "sconst", "nested_const", "op", "swap", "add_param", "default", "kwdefault",
               "add_call", "remove_call", "retarget_call", "retarget_alias", "var_value", "var_mutate", "version_bump",
-              "hidden_target", "prev_const", "guard_move", "deco_arg"]
+              "hidden_target", "prev_const", "guard_move", "deco_arg", "swap_aliases"]
 
 
 def apply_edit(rng, prog, kind=None, force_var=None, force_node=None):
@@ -980,6 +1006,33 @@ def apply_edit(rng, prog, kind=None, force_var=None, force_node=None):
                     ensure_alias(p["aliases"], nodes, c, nodes[i])
                     desc["alias_added"] = c["alias"]
                 return done(i)
+    if kind == "swap_aliases":  # two aliases of one module exchange their targets
+        als = p["aliases"]
+        for i1 in rng.sample(range(len(als)), len(als)):
+            for i2 in range(len(als)):
+                a1, a2 = als[i1], als[i2]
+                if i1 == i2 or a1["mod"] != a2["mod"] or a1["target"] == a2["target"] or a1.get("clone") or a2.get("clone"):
+                    continue
+                users = [i for i, nd in enumerate(nodes) if any(c.get("alias") in (a1["name"], a2["name"]) for c in nd["calls"])]
+                if not users or max(users) >= min(a1["target"], a2["target"]):
+                    continue
+                if not any(sum(1 for c in nodes[i]["calls"] if c.get("alias") in (a1["name"], a2["name"])) >= 1 for i in users):
+                    continue
+                a1["target"], a2["target"] = a2["target"], a1["target"]
+                for i in users:
+                    for c in nodes[i]["calls"]:
+                        if c.get("alias") == a1["name"]:
+                            c["t"] = a1["target"]
+                        elif c.get("alias") == a2["name"]:
+                            c["t"] = a2["target"]
+                desc["alias"] = a1["name"] + "<->" + a2["name"]
+                # (aliases are program text of their module: every user is affected, none is re-defined)
+                p2, d2 = done(None, changed=[])
+                for i in users:
+                    d2["bumped"] = sorted(set(d2["bumped"]) | set(bump_explicit_above(p, node=i)))
+                d2["changed_defs"] = sorted(set(d2["bumped"]))
+                d2["node"] = users[0]
+                return p2, d2
     if kind == "retarget_alias":
         for al in rng.sample(p["aliases"], len(p["aliases"])):
             users = [i for i, nd in enumerate(nodes) if any(c.get("alias") == al["name"] for c in nd["calls"])]
